@@ -54,14 +54,19 @@ fn check_server(
   punctured: &BTreeSet<u8>,
   orig: &[Val],
   gone_seeds: &[Vec<u8>],
+  closure: &Option<Prg>,
   what: &str,
   st: &mut Stats,
 ) -> Result<(), String> {
   let t = Tracked {
     g: s.verif_pprf().clone(),
     punctured: punctured.clone(),
+    closure: closure.clone(),
   };
   check_retained(&t, orig, st).map_err(|e| format!("{what}: {e}"))?;
+  if punctured.len() == 1 || what.starts_with("importer") && punctured.len() % 2 == 0 {
+    check_derivability(&t, orig, st).map_err(|e| format!("{what}: {e}"))?;
+  }
   // seeds of nodes that covered a punctured input at the time of its puncture must not be retained
   let retained: BTreeSet<Vec<u8>> = s.verif_pprf().verif_retained_nodes().into_iter().map(|n| n.2).collect();
   for g in gone_seeds {
@@ -88,6 +93,7 @@ fn check_server(
 fn oracle(c: &SCase, st: &mut Stats) -> Result<(), String> {
   let mut server = Server::new(c.mds.clone()).map_err(|e| e.to_string())?;
   let orig: Vec<Val> = original(server.verif_pprf())?;
+  let closure = Prg::for_fresh_key(server.verif_pprf(), &orig);
   let mut punctured: BTreeSet<u8> = BTreeSet::new();
   let mut gone: Vec<Vec<u8>> = Vec::new();
   let (probe, _) = Client::blind(b"probe");
@@ -106,16 +112,19 @@ fn oracle(c: &SCase, st: &mut Stats) -> Result<(), String> {
           if r.is_ok() {
             return Err(format!("tag {x} punctured twice successfully"));
           }
-        } else {
-          r.map_err(|e| format!("puncturing tag {x} failed: {e}"))?;
+        } else if r.is_ok() || c.mds.contains(&x) {
+          r.map_err(|e| format!("puncturing registered tag {x} failed: {e}"))?;
           punctured.insert(x);
           for (cov, _, seed) in before {
             if cov.contains(&x) {
               gone.push(seed);
             }
           }
+        } else {
+          // an unregistered tag may be refused outright; then nothing changed
+          st.class("puncture-of-unregistered-tag-refused");
         }
-        check_server(&server, &punctured, &orig, &gone, &format!("after op {i} (puncture {x})"), st)?;
+        check_server(&server, &punctured, &orig, &gone, &closure, &format!("after op {i} (puncture {x})"), st)?;
       }
       SOp::Transfer | SOp::Fork => {
         let bytes = bincode::serialize(&server.get_private_key()).map_err(|e| format!("export failed: {e}"))?;
@@ -134,7 +143,7 @@ fn oracle(c: &SCase, st: &mut Stats) -> Result<(), String> {
         importer.set_private_key(state);
         transfers += 1;
         let what = format!("importer of the state exported after op {i} (punctured {:?})", punctured);
-        check_server(&importer, &punctured, &orig, &gone, &what, st)?;
+        check_server(&importer, &punctured, &orig, &gone, &closure, &what, st)?;
         // the importer behaves like the exporter on all 256 inputs
         let (a, b) = (server_values(&server), server_values(&importer));
         for x in 0..256usize {
